@@ -391,6 +391,7 @@ def m_to_lowercase(ex, callee, args):
             lb, ll, _ = S.parts(low)
             r = S.s_ite(z3bool(ascii_all), SStr(list(lb) + [0, 0], ll, 'lower'), other)
         ex.uni.memo[key] = r
+        ex.uni.alive.append(s)
     return StrV(r)
 
 
@@ -427,6 +428,7 @@ def m_rb_build(ex, callee, args):
     if v is None:
         v = ex.uni.fresh('regex_valid', z3.BoolSort())
         ex.uni.memo[key] = v
+        ex.uni.alive.append(pat)
     if ex.branch(v):
         return ok(RegexV(pat, b.data['i']))
     return err(Opaque('regex::Error'))
